@@ -9,6 +9,7 @@ mod util;
 mod c07;
 mod c08;
 mod c10;
+mod c11;
 
 pub type Gen = fn(&mut util::Rng, &str) -> String;
 pub type Exec = fn(&[&str]) -> String;
@@ -18,6 +19,7 @@ fn table(prop: &str) -> Option<(Gen, Exec)> {
         "C07" => Some((c07::gen, c07::exec)),
         "C08" => Some((c08::gen, c08::exec)),
         "C10" => Some((c10::gen, c10::exec)),
+        "C11" => Some((c11::gen, c11::exec)),
         _ => None,
     }
 }
